@@ -329,11 +329,81 @@ def r4_exception_discipline(ctx, resolve_only=False):
                 'the rule list is modified before the support check that may reject the rule (a refused add leaves a trace, e.g. reserves the scope position)')
 
 
+def r6_load_equals_adds(ctx, R='C11.R6'):
+  """load_quantization_recipe(list) must leave the manager in the state that
+  adding the entries one by one, in list order, produces - also for hand-written
+  lists that repeat a (regex, operator) pair or put a '*' entry between two
+  entries of one operator. Decided for all lists of up to 3 entries from a small
+  alphabet by comparing stores and resolution tables."""
+  import itertools as _it  # pylint: disable=g-import-not-at-top
+  rs = ctx.rule(R, 'loading a rule list == adding its entries one by one in order (lists of up to 3 entries, repeated pairs and * in between included)', floor=1)
+  add = ctx.repo.func(f'{RM}.add_quantization_config')
+  load = ctx.repo.func(f'{RM}.load_quantization_recipe')
+  res = ctx.repo.func(f'{RM}.get_quantization_configs')
+  ctx.instance(R)
+  OP, ALG, good, srq, bad = _domain(ctx)
+  MM, NOQ = ALG['MIN_MAX_UNIFORM_QUANT'], ALG['NO_QUANTIZE']
+  FC, CONV, ALL = OP['FULLY_CONNECTED'], OP['CONV_2D'], OP['ALL_SUPPORTED']
+  it = _mk_interp(ctx)
+  alphabet = [('.*', FC, good, MM), ('.*', ALL, srq, MM), ('.*', FC, srq, MM), ('x', FC, good, MM), ('.*', ALL, good, MM), ('x', ALL, srq, MM), ('.*', CONV, None, NOQ)]
+  queries = list(_it.product([FC, CONV], ['x/y;', 'zz;']))
+
+  def fresh():
+    o = it.construct(RM, [], {}, None, 0)
+    if not isinstance(o, Obj):
+      raise index.AnalysisError(f'{RM}.__init__ is not interpretable')
+    return o
+
+  def table(m):
+    out = []
+    for t, s in queries:
+      q = it.outcomes(res, [m, t, s], copy_args=False)
+      if len(q) != 1 or q[0].kind != 'return' or not isinstance(q[0].value, tuple):
+        return None
+      alg, cfg = q[0].value
+      out.append((str(getattr(alg, 'value', alg)), cfg.frozen() if isinstance(cfg, Obj) else repr(cfg)))
+    return out
+  rs.exhaustive = True
+  n = 0
+  for k in (1, 2, 3):
+    for seq in _it.product(range(len(alphabet)), repeat=k):
+      a = fresh()
+      ok = True
+      entries = []
+      for i in seq:
+        rx, op, cfg, alg = alphabet[i]
+        o = it.outcomes(add, [a, rx, op, cfg, alg], copy_args=False)
+        if len(o) != 1 or o[0].kind != 'return':
+          ok = False
+          break
+        cfg_dict = common.to_dict(ctx, cfg if cfg is not None else tables.construct(ctx, common.OPCFG))
+        entries.append({'regex': rx, 'operation': op.value, 'algorithm_key': alg.value, 'op_config': common.json_roundtrip(cfg_dict)})
+      if not ok:
+        continue
+      b = fresh()
+      l = it.outcomes(load, [b, entries], copy_args=False)
+      label = 'list ' + ' ; '.join(f"({alphabet[i][0]!r}, {alphabet[i][1].name}, {'static' if alphabet[i][2] is srq else 'dynamic' if alphabet[i][2] is good else 'none'})" for i in seq)
+      if len(l) != 1 or l[0].kind != 'return':
+        ctx.check(R, False, load.node, load, label, f'loading raises / is not decided: {[x.short()[:100] for x in l]}')
+        continue
+      n += 1
+      ta, tb = table(a), table(b)
+      if ta is None or tb is None:
+        ctx.check(R, False, res.node, res, label, 'resolution not decided')
+        continue
+      diff = [(queries[i][0].name, queries[i][1]) for i in range(len(queries)) if ta[i] != tb[i]]
+      ctx.check(R, not diff, load.node, load, label,
+                f'after loading this list {diff[0][0] if diff else ""} under scope {diff[0][1] if diff else ""!r} does not resolve as after adding the same entries one by one: '
+                'loading is not "the documented add, in list order"')
+  ctx.sample(R, {'lists': n})
+
+
 def run(ctx):
   ctx.assume('regular-expression semantics are those of re.search')
   r1_purity(ctx)
   r23_resolution_table(ctx)
   r4_exception_discipline(ctx)
   r5_add_table(ctx)
+  r6_load_equals_adds(ctx)
 
 
